@@ -86,6 +86,10 @@ type Call struct {
 	// the scenario says so); otherwise the shared buffer itself is passed.
 	PrivA bool `json:"privA,omitempty"`
 	PrivB bool `json:"privB,omitempty"`
+	// ShareOpts: the *ApplyOptions given to this call is one object per distinct option value,
+	// built before the tasks start and shared by every call (of any task) that sets this flag -
+	// the way a server keeps one options value.  Otherwise each call gets a fresh one.
+	ShareOpts bool `json:"share_opts,omitempty"`
 
 	// in-run decisions, recorded in generate mode and followed in replay mode
 	Tape     []uint32       `json:"tape,omitempty"`
@@ -191,7 +195,7 @@ func (s *Scenario) ShapeHash() uint64 {
 		}
 		wi(int64(c.Slot))
 		b := int64(0)
-		for i, f := range []bool{c.Opts.Neg, c.Opts.Allow, c.Opts.Ensure, c.Opts.Escape, c.PrivA, c.PrivB} {
+		for i, f := range []bool{c.Opts.Neg, c.Opts.Allow, c.Opts.Ensure, c.Opts.Escape, c.PrivA, c.PrivB, c.ShareOpts} {
 			if f {
 				b |= 1 << i
 			}
